@@ -36,6 +36,7 @@ full statements are refuted by `…_counterexample_status2`.  Independently,
 identities never come back, and `C17_used_exact` gives the exact condition.
 -/
 import EdbVerif.Lemmas.SyncGhost
+import EdbVerif.Lemmas.SyncMTThm
 import EdbVerif.Model.SyncBuggy
 
 namespace EdbVerif.C17
@@ -311,5 +312,153 @@ example : ((trace tokEnv (initState init0) hNoStatus2).map
 example :
     (stepTx tokEnv (run [.compile (C 0 8 20 28 .ok 400), .tx (T 0 8 (some 400) .ok 404)])
       (T 0 8 (some 404) .raise 408)).2 = ⟨.reuse, .compErr, some ⟨404, none⟩⟩ := by decide
+
+/-! ## The remote path: EdgeDB server → compiler server → multi-tenant workers
+
+Model `EdbVerif.SyncMT` (Model/SyncMT.lean): `pool.RemotePool` / `RemoteWorker` on the
+EdgeDB server of each client, `server.MultiSchemaPool` (`_sync`, `ClientSchema.diff`, the
+per-worker LRU record of client-schema versions) on the compiler server,
+`multitenant_worker.__sync__` (FULL SYNC / DIFF SYNC ADD, UPDATE, DROP / invalidation) in
+the workers.  `execMT env (initMT init dom size) pre` is the state after the requests `pre`
+(any clients, any databases, any worker chosen for each request, any cache size), started
+from the clients' init args. -/
+
+section remote
+open EdbVerif.SyncMT
+
+/-- **Remote path, used state, every history.**  A request that reaches a worker-side
+    compiler is compiled against exactly what the compiler server holds *now* (after
+    this request's own `_sync`) for that client and database: user schema, global schema,
+    reflection cache, database config, instance config — however many databases changed
+    since the worker last saw the client, whatever was evicted, whichever earlier syncs
+    failed, status 2 included.  (This is the statement that the seeded edit of
+    "DIFF SYNC UPDATE" falsifies.) -/
+theorem C17_remote_used_current (env : Env) (init : Nat → Side) (dom : Nat → List Nat)
+    (size : Nat) (pre : List MReq) (q : MReq) :
+    (stepMT env (execMT env (initMT init dom size) pre) q).2.usedCurrent
+      (stepMT env (execMT env (initMT init dom size) pre) q).1 q :=
+  SyncMT.usedCurrent_step env _ q (SyncMT.inv_exec env pre _ (SyncMT.inv_init init dom size))
+
+/-- **Remote path, C17_used** (partial).  If no earlier request ended in
+    `FailedStateSync`, the request is compiled against exactly the five parts the client
+    supplied.
+
+    Full statement (FALSE, see `C17_remote_used_counterexample_failed_sync`): the same
+    without `NoFailedSync`.  Missing: a worker-side `FailedStateSync` comes after the
+    compiler server has stored the new parts, and the EdgeDB server does not acknowledge. -/
+theorem C17_remote_used_partial (env : Env) (init : Nat → Side) (dom : Nat → List Nat)
+    (size : Nat) (pre : List MReq) (q : MReq)
+    (h : NoFailedSync env (initMT init dom size) pre) :
+    (stepMT env (execMT env (initMT init dom size) pre) q).2.usedSupplied q :=
+  SyncMT.usedSupplied_step env _ q (SyncMT.inv_exec env pre _ (SyncMT.inv_init init dom size))
+    (SyncMT.agree1_exec env q.c pre _ (SyncMT.agree1_init init dom size q.c) h)
+
+/-- **Remote path, belief of the EdgeDB server** (partial): without `FailedStateSync` results,
+    what the EdgeDB server of a client believes the compiler server holds is what it holds. -/
+theorem C17_remote_belief_partial (env : Env) (init : Nat → Side) (dom : Nat → List Nat)
+    (size : Nat) (h : List MReq) (hn : NoFailedSync env (initMT init dom size) h) (c : Nat) :
+    Agree1 (execMT env (initMT init dom size) h) c :=
+  SyncMT.agree1_exec env c h _ (SyncMT.agree1_init init dom size c) hn
+
+/-- **Remote path, record of the compiler server** (partial): without status 2, "the
+    compiler server records version `v` of client `c` for worker `w`" implies "`w` holds
+    exactly version `v` of `c`: every slot of every database, and no other database".
+
+    Full statement (FALSE, see `C17_remote_record_counterexample_status2`): the same
+    without `NoStatus2MT`. -/
+theorem C17_remote_record_partial (env : Env) (init : Nat → Side) (dom : Nat → List Nat)
+    (size : Nat) (h : List MReq) (hn : NoStatus2MT h) :
+    RecordExact (execMT env (initMT init dom size) h) :=
+  SyncMT.recordExact_exec env h _ (SyncMT.inv_init init dom size)
+    (SyncMT.recordExact_init init dom size) hn
+
+/-- … and in every history, status 2 included: on every slot on which the recorded version
+    coincides with the compiler server's current version, the worker holds the current
+    content (so a lagging record only causes re-sends: on the compiler server every
+    received part is a fresh object, identities never come back). -/
+theorem C17_remote_record_weak (env : Env) (init : Nat → Side) (dom : Nat → List Nat)
+    (size : Nat) (h : List MReq) (w c : Nat) (v cs : CS)
+    (hv : cacheGet ((execMT env (initMT init dom size) h).wk w).cache c = some v)
+    (hcs : (execMT env (initMT init dom size) h).cli c = some cs) :
+    ∃ x, ((execMT env (initMT init dom size) h).wk w).act c = some x ∧
+      ∀ σ, v.get σ = cs.get σ → x.get σ = cs.cont σ := by
+  obtain ⟨_, _, _, x, hx, _, h5⟩ :=
+    (SyncMT.inv_exec env h _ (SyncMT.inv_init init dom size)).entry w c v hv
+  exact ⟨x, hx, h5 cs hcs⟩
+
+/-! ### concrete histories (remote path); replayed on the real three tiers by the harness
+
+Client 1 with databases 0 = (8, 16, 20) and 1 = (12, 16, 20), global schema 28, instance
+config 36; two workers; cache size 2.  44, 48 = new schemas, 34 = a global schema that
+cannot be unpickled, 52 = another global schema. -/
+
+def initR : Nat → Side := fun _ =>
+  { dbs := fun db => if db = 0 then some ⟨8, 16, 20⟩ else if db = 1 then some ⟨12, 16, 20⟩ else none,
+    glob := 28, sys := 36, last := none }
+
+/-- request of client 1 for database `db` served by worker `w` -/
+def Q (w db s g : Nat) (out : COut := .ok) : MReq :=
+  ⟨1, { w := w, db := db, schema := s, refl := 16, glob := g, dbcfg := 20, sys := 36, out := out, ns := 0 }⟩
+
+abbrev stR : MTState := initMT initR (fun _ => [0, 1]) 2
+
+def usedOf (h : List MReq) : List (Option Used) := (traceMT tokEnv stR h).map (·.used)
+
+/-- one diff carrying two databases: worker 0 learns the client, both databases change
+    while worker 1 serves, then worker 0 is asked for database 0 (it receives ONE diff with
+    both databases) and for database 1 (nothing is sent): both compiled against the new
+    schemas 44 and 48. -/
+example : usedOf [Q 0 0 8 28, Q 1 0 44 28, Q 1 1 48 28, Q 0 0 44 28, Q 0 1 48 28] =
+    [some ⟨8, 28, 16, 20, 36⟩, some ⟨44, 28, 16, 20, 36⟩, some ⟨48, 28, 16, 20, 36⟩,
+     some ⟨44, 28, 16, 20, 36⟩, some ⟨48, 28, 16, 20, 36⟩] := by decide
+
+example : ((traceMT tokEnv stR [Q 0 0 8 28, Q 1 0 44 28, Q 1 1 48 28, Q 0 0 44 28, Q 0 1 48 28]).map
+    (·.kind)) = [some .full, some .full, some .diff, some .diff, some .insync] := by decide
+
+/-- status 2: worker 0 has synced schema 44, but the compiler server still records the
+    version with schema 8 for it. -/
+theorem C17_remote_record_counterexample_status2 :
+    ¬ RecordExact (execMT tokEnv stR [Q 0 0 8 28, Q 0 0 44 28 .resultUnpicklable]) := by
+  intro h
+  have hc : (cacheGet ((execMT tokEnv stR [Q 0 0 8 28, Q 0 0 44 28 .resultUnpicklable]).wk 0).cache 1).map
+      (fun v => v.cont (.schema 0)) = some (some 8) := by decide
+  cases hv : cacheGet ((execMT tokEnv stR [Q 0 0 8 28, Q 0 0 44 28 .resultUnpicklable]).wk 0).cache 1 with
+  | none => rw [hv] at hc; cases hc
+  | some v =>
+    rw [hv] at hc
+    simp only [Option.map_some, Option.some.injEq] at hc
+    obtain ⟨x, hx, hh⟩ := h 0 1 v hv
+    have ha : (((execMT tokEnv stR [Q 0 0 8 28, Q 0 0 44 28 .resultUnpicklable]).wk 0).act 1).map
+        (fun x => x.get (.schema 0)) = some (some 44) := by decide
+    rw [hx] at ha
+    simp only [Option.map_some, Option.some.injEq] at ha
+    have := hh (.schema 0)
+    rw [ha, hc] at this
+    cases this
+
+/-- failed sync on a worker: the compiler server has stored schema 44 and the unpicklable
+    global schema 34, the worker raises `FailedStateSync`, the EdgeDB server keeps
+    believing (8, 28).  When the client then supplies schema 8 again with a new global
+    schema 52, the schema is elided and the worker compiles against 44. -/
+theorem C17_remote_used_counterexample_failed_sync :
+    (traceMT tokEnv stR [Q 0 0 44 34, Q 0 0 8 52]).map (fun o => (o.res, o.used)) =
+      [(.syncFail, none), (.ok, some ⟨44, 52, 16, 20, 36⟩)] ∧
+    ¬ (stepMT tokEnv (execMT tokEnv stR [Q 0 0 44 34]) (Q 0 0 8 52)).2.usedSupplied (Q 0 0 8 52) := by
+  refine ⟨by decide, fun h => ?_⟩
+  have := h ⟨44, 52, 16, 20, 36⟩ (by decide)
+  revert this; decide
+
+/-- … and until the global schema changes the client is wedged: the elided parts keep the
+    unpicklable value on the compiler server and every request fails. -/
+example : (traceMT tokEnv stR [Q 0 0 44 34, Q 0 0 44 28, Q 1 1 12 28]).map (·.res) =
+    [.syncFail, .syncFail, .syncFail] := by decide
+
+/-- eviction: cache size 1, two clients on one worker: the second client evicts the first
+    (invalidation list `[1]`), which is then synced in full again. -/
+example : ((traceMT tokEnv (initMT initR (fun _ => [0, 1]) 1)
+      [Q 0 0 8 28, ⟨2, (Q 0 0 8 28).r⟩, Q 0 0 8 28]).map (fun o => (o.kind, o.inval))) =
+    [(some .full, []), (some .full, [1]), (some .full, [2])] := by decide
+
+end remote
 
 end EdbVerif.C17
